@@ -117,7 +117,17 @@ class RateLimitedEntity(Entity):
         self.received_times.append(now)
 
         if self._policy.try_acquire(now):
-            return self._forward(event, now)
+            if self._queue.is_empty():
+                return self._forward(event, now)
+            # Older requests are still buffered: give the capacity to the
+            # oldest one and buffer the new arrival behind the others, so
+            # that requests are forwarded in arrival order.
+            oldest = self._queue.pop()
+            if oldest is None:
+                raise RuntimeError("Queue reported non-empty but pop() returned None")
+            self._queue.push(event)
+            self._queued += 1
+            return self._forward(oldest, now) + self._ensure_poll_scheduled(now)
 
         # Queue the event
         if self._queue.push(event):
